@@ -78,13 +78,26 @@ def trace():
             g.add('lod_%d_%d' % (i, j), ['p_%d_%d' % (i, j)], lod[i, j])
 
     # ---- 4. equirectangular: pixels (one function) and LOD (stub)
+    # torch.acos is stubbed too: the body is  F(acos(G(gaze)))  with one acos call on the whole map;
+    # G (the clamped cosine) and F (pooling size from the eccentricity) are emitted separately
     for tag, mode in MODES.items():
         ns = _fresh()
+        acos_args = []
+
+        def stub_acos(x, acos_args=acos_args):
+            acos_args.append(x)
+            return shim.sym('e', size)
+        ns['torch'].__dict__['acos'] = stub_acos
+        ns['torch'].__dict__['arccos'] = stub_acos
         ep = ns['make_equi_pooling_size_map_pixels']([g0, g1], size, al, mode)
+        if len(acos_args) != 1 or tuple(acos_args[0].shape) != size:
+            raise shim.TraceError('make_equi_pooling_size_map_pixels: expected one acos over the %s map' % (size,))
         assert ep.shape == size
         for i in range(H):
             for j in range(W):
-                g.add('epix_%s_%d_%d' % (tag, i, j), ['g0', 'g1', 'alpha'], ep[i, j])
+                if tag == 'q':
+                    g.add('ecos_%d_%d' % (i, j), ['g0', 'g1'], acos_args[0][i, j])
+                g.add('epix_%s_%d_%d' % (tag, i, j), ['e_%d_%d' % (i, j), 'alpha'], ep[i, j])
     ns = _fresh()
     seen2 = []
 
@@ -115,6 +128,8 @@ def eval_screen(g, tag, i, j, g0, g1, alpha, rw, rd):
 
 
 def eval_equi(g, tag, i, j, g0, g1, alpha):
-    p = g.evalf('epix_%s_%d_%d' % (tag, i, j), {'g0': g0, 'g1': g1, 'alpha': alpha})
+    import math
+    cs = g.evalf('ecos_%d_%d' % (i, j), {'g0': g0, 'g1': g1})
+    p = g.evalf('epix_%s_%d_%d' % (tag, i, j), {'e_%d_%d' % (i, j): math.acos(cs), 'alpha': alpha})
     l = g.evalf('elod_%d_%d' % (i, j), {'p_%d_%d' % (i, j): p})
     return p, l
